@@ -88,18 +88,28 @@ def durability(ctx, st):
             raise core.Inconclusive("strace run failed: %s" % r.stdout[-500:])
         fd = None
         evs = [{"ev": "R", "seed": seed}]
+        pending_sync = {}   # pid -> a sync of data.db was entered and has not returned yet
         for ln in open(tr, errors="replace"):
-            m = re.search(r'openat\(AT_FDCWD, "[^"]*data\.db", [^)]*\) = (\d+)', ln)
+            mp = re.match(r'\s*(\d+)\s+(.*)$', ln)
+            pid, rest = (mp.group(1), mp.group(2)) if mp else ("0", ln)
+            m = re.search(r'openat\(AT_FDCWD, "[^"]*data\.db", [^)]*\) = (\d+)', rest)
             if m:
                 fd = m.group(1)
                 continue
             if fd is None:
                 continue
-            if re.search(r'\b(pwrite64|write)\(%s,' % fd, ln):
+            # strace -f splits a call that blocks into "... <unfinished ...>" and "<... name resumed>": a write
+            # counts from its entry (the file may be dirty from then on), a sync only once it has returned,
+            # an acknowledgement from the moment it is issued
+            if re.search(r'\b(pwrite64|write)\(%s,' % fd, rest):
                 evs.append({"ev": "W"})
-            elif re.search(r'\b(fdatasync|fsync)\(%s\)' % fd, ln):
+            elif re.search(r'\b(fdatasync|fsync)\(%s\)\s*= 0' % fd, rest):
                 evs.append({"ev": "S"})
-            elif re.search(r'\bwrite\(1, "ACK ', ln):
+            elif re.search(r'\b(fdatasync|fsync)\(%s <unfinished' % fd, rest):
+                pending_sync[pid] = True
+            elif re.search(r'<\.\.\. (fdatasync|fsync) resumed>.*= 0', rest) and pending_sync.pop(pid, None):
+                evs.append({"ev": "S"})
+            elif re.search(r'\bwrite\(1, "ACK ', rest):
                 evs.append({"ev": "A"})
         for e in evs:
             if e["ev"] in tot:
